@@ -20,6 +20,13 @@ def judge(case):
     op = case["op"]
     name = op + ("" if case.get("form", "fn") == "fn" else ":" + case["form"])
     arrays = cat.arrays_for(case)
+    offset = "offset" in (case.get("pats") or [])
+    rt, at = RT, AT
+    if offset:
+        # large-mean data: the library runs in float32, the reference in float64 on the same float32-rounded values;
+        # a two-pass variance is accurate to ~1e-4 here, a one-pass E[x^2]-E[x]^2 is off by percents
+        arrays = [a.astype(np.float32) if a.dtype.kind == "f" else a for a in arrays]
+        rt, at = 2e-3, 2e-3
     def lib():
         out, ts = cat.run_lib(case, arrays)
         res = {"out": np.asarray(out.data)}
@@ -29,7 +36,7 @@ def judge(case):
             res["draws"] = case.get("_draws")
         return res
     L = _outcome(lib)
-    R = _outcome(lambda: cat.run_ref(case, [a.copy() for a in arrays]))
+    R = _outcome(lambda: cat.run_ref(case, [a.astype(np.float64) if a.dtype.kind == "f" else a.copy() for a in arrays]))
     if R[0] == "ok" and not isinstance(R[1], dict):
         R = ("ok", {"out": R[1]})
     viol = []
@@ -43,13 +50,13 @@ def judge(case):
             a = L[1][key]
             if tuple(np.shape(a)) != tuple(np.shape(b)):
                 v("shape" if key == "out" else key + "-shape", f"library {key} shape {np.shape(a)}, reference {np.shape(b)}")
-            elif not np.allclose(np.asarray(a, dtype=np.float64), b, rtol=RT, atol=AT, equal_nan=True):
+            elif not np.allclose(np.asarray(a, dtype=np.float64), b, rtol=rt, atol=at, equal_nan=True):
                 v("value" if key == "out" else key, f"{key}: max abs diff {np.nanmax(np.abs(np.asarray(a, dtype=np.float64) - b)):.3g}")
         if op == "dropout":
             want = int(np.prod(case["shapes"][0])) if case["args"].get("training", True) else 0
             if L[1].get("draws") != want:
                 v("draws", f"consumed {L[1].get('draws')} random draws, expected {want}")
-    if L[0] == "ok" and R[0] == "ok" and not viol and op not in ("dropout",) and any(a.ndim >= 2 and a.size > 1 and a.dtype.kind == "f" for a in arrays):
+    if L[0] == "ok" and R[0] == "ok" and not viol and not offset and op not in ("dropout",) and any(a.ndim >= 2 and a.size > 1 and a.dtype.kind == "f" for a in arrays):
         from mc import gradcheck
         for lname, conv in gradcheck.LAYOUTS:
             alt = [conv(np.array(a, copy=True)) if a.dtype.kind == "f" else np.array(a, copy=True) for a in arrays]
@@ -71,6 +78,12 @@ def replay(case):
 
 def run(tier, seed):
     cases = cat.cases(tier, "forward")
+    if tier == "thorough":       # value-scale variants (tiny / large / large-mean operands) of the quick lattice
+        for c in cat.cases("quick", "forward"):
+            pats = c.get("pats") or ["generic"]
+            if "generic" in pats and "offset" not in pats and c["op"] not in ("dropout",):
+                for m in (("tiny", "large") if c["op"] == "batch_norm" else ("tiny", "large", "offset")):
+                    cases.append(dict(c, vmod=m))
     r = engine.run_cases(cases, judge)
     cov = {"evaluations": r["evaluations"], "distinct_nontrivial": r["distinct_nontrivial"],
            "rule": "every case of the nn lattice: activations x shapes x patterns; softmax/log_softmax for every rank 1-4 shape "
